@@ -239,6 +239,42 @@ Proof.
   rewrite E. cbn [snd r_acc r_after]. auto.
 Qed.
 
+(* restoration needs no hypothesis at all: any decision function, any oracles *)
+Lemma step_restores dec cfgs st d :
+  let r := snd (step NumR dec cfgs st d) in
+  (r_acc r = false -> r_after r = r_before r /\ r_lj_after r = r_lj_before r) /\
+  (r_acc r = true -> r_after r = r_prop r /\ r_dens r = Fin (r_lj_after r)).
+Proof.
+  unfold step. destruct (propose NumR _ _ (c_x st) d) as [x' h]. unfold mh.
+  destruct h as [hv|].
+  - destruct (d_eval d x') as [p'|].
+    + cbn [snd r_acc r_after r_before r_lj_after r_lj_before r_prop r_dens].
+      destruct (dec (d_uacc d) _); split; intros E; try discriminate; auto.
+    + cbn. split; intros E; try discriminate; auto.
+  - cbn. split; intros E; try discriminate; auto.
+Qed.
+
+Lemma run_restores dec cfgs ds : forall st,
+  List.Forall (fun r => (r_acc r = false -> r_after r = r_before r /\ r_lj_after r = r_lj_before r) /\
+                        (r_acc r = true -> r_after r = r_prop r /\ r_dens r = Fin (r_lj_after r)))
+              (snd (run NumR dec cfgs st ds)).
+Proof.
+  induction ds as [|d ds IH]; intros st; cbn [run]; [constructor|].
+  pose proof (step_restores dec cfgs st d) as S.
+  destruct (step NumR dec cfgs st d) as [st1 rc]. cbn [snd] in S.
+  specialize (IH st1). destruct (run NumR dec cfgs st1 ds) as [st2 t]. cbn [snd] in *.
+  constructor; assumption.
+Qed.
+
+Lemma run_logged pi cfgs ds st :
+  pi (c_x st) = Fin (c_lj st) -> List.Forall (faithful pi) ds ->
+  List.Forall (fun r => r_logx r = r_after r /\ r_logp r = pi (r_logx r) /\ r_logp r = Fin (r_lj_after r))
+              (snd (run NumR Rltb cfgs st ds)).
+Proof.
+  intros H0 Hf. destruct (run_ok pi cfgs ds st H0 Hf) as [_ H].
+  eapply Forall_impl; [|exact H]. intros r [(_ & _ & _ & A & B & C) _]. auto.
+Qed.
+
 (* ln form of the accept test (the form quoted in the design):  ln u < min(0, D + H) *)
 Lemma accept_ln_form u a : 0 < u -> (u < Rmin 1 (exp a) <-> ln u < Rmin 0 a).
 Proof.
